@@ -101,7 +101,7 @@ def go_build(name, race=False, test=False):
     out = os.path.join(BIN, name + ("_race" if race else ""))
     os.makedirs(BIN, exist_ok=True)
     if test:
-        cmd = ["go", "test", "-c", "-tags", "verif", "-overlay", ov, "-o", out, "./internal/verif/" + name]
+        cmd = ["go", "test", "-c", "-vet=off", "-tags", "verif", "-overlay", ov, "-o", out, "./internal/verif/" + name]
     else:
         cmd = ["go", "build", "-tags", "verif", "-overlay", ov, "-o", out, "./internal/verif/" + name]
     if race:
